@@ -14,6 +14,7 @@ import (
 //   - the same reference loaded twice reaches the inner loader once and yields the SAME object;
 //   - two different references yield different objects, each loaded once — also when they differ only after the last
 //     dot (contact.v1 / contact.v2) and when the same relative spelling is used from two different directories;
+//   - the same file referenced by two different documents (two parents in one directory) is still ONE object, loaded once;
 //   - a failed load is reported and not remembered.
 //
 // Insensitive to how the memo table is written (early return, if !ok {...}, helper).
@@ -31,6 +32,7 @@ func ruleMemo(c *core.Ctx) {
 		{"two different references", []call{{"a.json", ""}, {"b.json", ""}}, 2, false, false},
 		{"two references that differ only after the last dot", []call{{"contact.v1", ""}, {"contact.v2", ""}}, 2, false, false},
 		{"the same relative spelling from two different directories", []call{{"b.json", "x/a.json"}, {"b.json", "y/a.json"}}, 2, false, false},
+		{"the same file referenced by two different documents of one directory", []call{{"b.json", "x/a.json"}, {"b.json", "x/c.json"}}, 1, true, false},
 		{"a reference that cannot be loaded, twice", []call{{"missing.json", ""}, {"missing.json", ""}}, 2, false, true},
 	}
 	for _, sc := range scen {
